@@ -439,6 +439,9 @@ func parseGSIBlock(b []byte) (g *gsiBlock, err error) {
 	// Framerate
 	if v, ok := stlFramerateMapping.Get(string(b[3:11])); ok {
 		g.framerate = v.(int)
+	} else {
+		err = fmt.Errorf("astisub: unknown disk format code %q", string(b[3:11]))
+		return
 	}
 
 	// Creation date
@@ -584,6 +587,12 @@ func (b gsiBlock) bytes() (o []byte) {
 
 // parseDurationSTL parses a STL duration
 func parseDurationSTL(i string, framerate int) (d time.Duration, err error) {
+	// Invalid timecode
+	if len(i) < 8 || framerate <= 0 {
+		err = fmt.Errorf("astisub: invalid timecode %q at %d frames per second", i, framerate)
+		return
+	}
+
 	// Parse hours
 	var hours, hoursString = 0, i[0:2]
 	if hours, err = strconv.Atoi(hoursString); err != nil {
@@ -1031,6 +1040,11 @@ func encodeTextSTL(i string) (o []byte) {
 		if v, ok := stlUnicodeMapping.GetInverse(string(c)); ok {
 			o = append(o, v.(byte))
 		} else if v, ok := stlUnicodeDiacritic.GetInverse(string(c)); ok {
+			// The diacritic comes before the letter it modifies
+			if len(o) == 0 {
+				o = append(o, v.(byte))
+				continue
+			}
 			o = append(o[:len(o)-1], v.(byte), o[len(o)-1])
 		} else {
 			o = append(o, byte(c))
